@@ -1,15 +1,31 @@
 /-
 C01 — Every required file is extracted exactly once, and nothing else is.
 Property theorems only (model: Model/Walk.lean, specification: Spec/Walk.lean).
-`Benign c` = no inode limit, no cancellation, filesystem errors not fatal, extractors do not panic
-(C09 / C10 / C02 cover the other configurations); `GiOK c` = the gitignore matcher obeys go-git's
-domain rule (a pattern set parsed for directory d only matches paths strictly below d).
-All statements hold for every forest, every fault plan and every combination of the scan options.
+`GiOK c` = the gitignore matcher obeys go-git's domain rule (a pattern set parsed for directory d only
+matches paths strictly below d).  All statements hold for every forest, every fault plan and every
+combination of the scan options, within the stated configuration class.
+
+CONFIGURATION CLASSES (they are classes of configurations, not narrowing hypotheses on the input):
+  * `Benign c` (no inode limit, no cancellation, `ErrorOnFSErrors` off, extractors do not panic): the EXACT
+    theorems `C01_calls`, `C01_inv_spec`, `C01_once_run`, `C01_subdir`, `C01_requested_*` — the attempts are the
+    specification's, as a list.
+  * EVERY configuration (inode limit, size limit, cancellation before / inside any `Extract`, fatal errors,
+    panicking extractors, and all their combinations): the invariant-style theorems `C01_only_required_run`,
+    `C01_calls_are_files`, `C01_limit_shared_run`, `C01_limit_shared_step`, `C01_inv`.
+  * The other exact classes are in C09 (`FatalCfg`: fatal errors; `C09_fatal_clean`: fatal errors and no
+    traversal fault = the benign scan; `C09_eofs_only_by_failing`: any configuration) and C10 (`LimitCfg`,
+    `CancelCfg`, and `run_trace` for every non-fatal, non-panicking configuration).  Combinations limit+fatal,
+    cancellation+fatal and any configuration with a panicking extractor have ONLY the invariant-style theorems
+    (plus `C09_eofs_only_by_failing`, which reduces a fatal configuration that does not fail to its non-fatal twin).
+Hypotheses that DO narrow the input carry the `_partial`-style caveat in their docstring: `DistinctNames`
+(sibling names distinct — true of every real filesystem listing), one root, `paths = []`.
 -/
 import Scalibr.Proofs.WalkTop
 import Scalibr.Proofs.WalkMore
 import Scalibr.Model.Gitignore
 import Scalibr.Proofs.WalkSubdir
+import Scalibr.Proofs.WalkEngineInv
+import Scalibr.Proofs.WalkOnce
 namespace Scalibr.Walk
 
 /-- The extraction attempts of a scan are exactly the ones the specification lists — as a list: in
@@ -19,11 +35,31 @@ theorem C01_calls (c : Cfg) (hb : Benign c) (roots : List (Node × Faults)) (ho 
     (run c roots).err = .none ∧ (run c roots).calls = mustExtract c roots :=
   run_spec c hb roots ho
 
-/-- "Exactly once": on trees whose directories list distinct names, no (extractor, file) pair is owed —
-hence, by `C01_calls`, attempted — twice within one walk. -/
+/-- "Exactly once" (specification; narrowing hypothesis: `DistinctNames`, i.e. no directory lists a name twice):
+no (extractor, file) PAIR is owed twice within one walk — stated on the pairs `(cl.ext, cl.path)`, not on the
+attempt records (two equally named siblings of different sizes would give distinct records for the same pair). -/
 theorem C01_once (c : Cfg) (f : Faults) (above : List GiEntry) (p : Path) (n : Node) (h : DistinctNames n) :
-    (mustFrom c f above p n).Nodup :=
-  mustFlat_nodup c f above p [] n h
+    ((mustFrom c f above p n).map fun cl => (cl.ext, cl.path)).Nodup :=
+  mustFrom_keys_nodup c f above p n h
+
+/-- … and for the engine (class `Benign`; narrowing: one root, whole-tree scan, `DistinctNames`): no
+(extractor, file) pair is ATTEMPTED twice by the scan.  (With several roots, or a path requested twice, the
+same relative path is legitimately extracted once per root / request: see `C08_roots`.) -/
+theorem C01_once_run (c : Cfg) (hb : Benign c) (ho : GiOK c) (hp : c.paths = []) (root : Node) (f : Faults)
+    (h : DistinctNames root) : ((run c [(root, f)]).calls.map fun cl => (cl.ext, cl.path)).Nodup :=
+  run_keys_nodup c hb ho hp root f h
+
+/-- "Every file": `allFiles`, over which the specification quantifies, enumerates exactly the non-directory
+nodes of the tree — `q` leads to a file of kind `k` and size `sz` iff the enumeration has a record with that
+path, kind and size (`DistinctNames`: `lookup` resolves a name to its FIRST entry; the direction "every file
+`lookup` finds is enumerated" needs no hypothesis: `C01_allFiles_complete`). -/
+theorem C01_allFiles_exact (root : Node) (h : DistinctNames root) (q : Path) (k : Kind) (sz : Nat) :
+    lookup root q = some (.file k sz) ↔ ∃ r ∈ allFiles [] [] root, r.path = q ∧ r.kind = k ∧ r.size = sz :=
+  allFiles_iff_lookup root h q k sz
+
+theorem C01_allFiles_complete (root : Node) (q : Path) (k : Kind) (sz : Nat) (h : lookup root q = some (.file k sz)) :
+    ∃ r ∈ allFiles [] [] root, r.path = q ∧ r.kind = k ∧ r.size = sz :=
+  allFiles_complete root q k sz h
 
 /-- "and on no other file": every owed attempt is for a regular file (or a symlink when symlink reading
 is on) that the extractor requires, that no configured rule excludes, and that is within the size limit. -/
@@ -43,6 +79,39 @@ theorem C01_only_required (c : Cfg) (f : Faults) (above : List GiEntry) (r : Fil
 theorem C01_limit_shared (c : Cfg) (f : Faults) (above : List GiEntry) (r : FileRec)
     (hm : c.maxFileSize > 0) (hs : r.size > c.maxFileSize) : mustOne c f above r = [] := by
   unfold mustOne sizeOk; simp [hm, hs]
+
+/-- "and on no other file", ENGINE level, EVERY configuration (faults, limits, cancellation, fatal errors,
+panicking extractors): each extraction attempt of a scan is made by an extractor whose `FileRequired` accepts
+that path.  (`C01_only_required` above is the corresponding fact about the specification.) -/
+theorem C01_only_required_run (c : Cfg) (roots : List (Node × Faults)) :
+    ∀ cl ∈ (run c roots).calls, c.required cl.ext cl.path = true :=
+  run_required c roots
+
+/-- … and each attempt is for a non-directory node of one of the scanned trees (a record of the declarative
+enumeration `allFiles`), carries that node's size, and that node is required by the extractor — ENGINE level,
+EVERY configuration. -/
+theorem C01_calls_are_files (c : Cfg) (roots : List (Node × Faults)) :
+    ∀ cl ∈ (run c roots).calls, ∃ rf ∈ roots, ∃ r ∈ allFiles [] [] rf.1,
+      r.path = cl.path ∧ r.size = cl.size ∧ c.required cl.ext r.path = true :=
+  run_calls_files c roots
+
+/-- The size limit is shared, ENGINE level, EVERY configuration: every attempt — by whichever extractor — is for
+a file of the forest whose size is within the limit; so a file above the limit has no attempt from any extractor. -/
+theorem C01_limit_shared_run (c : Cfg) (roots : List (Node × Faults)) (hm : c.maxFileSize > 0) :
+    ∀ cl ∈ (run c roots).calls, ∃ rf ∈ roots, ∃ r ∈ allFiles [] [] rf.1,
+      r.path = cl.path ∧ r.size = cl.size ∧ r.size ≤ c.maxFileSize := by
+  intro cl hcl
+  obtain ⟨rf, hrf, r, hr, h1, h2, _⟩ := run_calls_files c roots cl hcl
+  refine ⟨rf, hrf, r, hr, h1, h2, ?_⟩
+  rw [h2]
+  unfold run at hcl
+  exact runRoots_sizeInv c roots _ [] [] (by intro x hx; simp at hx) cl hcl hm
+
+/-- … and step-wise: `handleFile` on a file above `MaxFileSize` changes NOTHING in the engine state — no
+extractor gets an attempt, not just the first one that asked for the size (every configuration). -/
+theorem C01_limit_shared_step (c : Cfg) (f : Faults) (s : St) (p : Path) (k : Kind) (size : Nat)
+    (hm : c.maxFileSize > 0) (hs : size > c.maxFileSize) : (handleLeaf c f s p k size).1 = s :=
+  handleLeaf_oversize c f s p k size hm hs
 
 /-- The reported inventory is exactly the union of what the `Extract` invocations returned, each
 package attributed to the extractor and file that produced it — in every configuration in which the
@@ -115,5 +184,65 @@ example : ((chainOf [] exTree ["a"]).map fun x => x.1.map (·.path)) = some [[]]
 example : dirPasses exCfg {} [] [⟨[], none, 0⟩] 0 = true := by decide
 example : (run exCfg [(exTree, {})]).calls = mustExtract exCfg [(exTree, {})] :=
   (C01_calls exCfg ⟨rfl, rfl, rfl, rfl, fun _ _ => rfl⟩ _ exGiOK).2
+
+/-- `C01_subdir` at work on the example (its hypotheses are satisfiable on a tree with a nested `.gitignore`, a
+skip glob and a size limit): requesting directory `a` makes exactly the whole-tree scan's attempts under `a`. -/
+example : (run { exCfg with paths := [["a"]] } [(exTree, {})]).calls
+    = (run exCfg [(exTree, {})]).calls.filter (fun cl => under ["a"] cl.path) :=
+  C01_subdir exCfg ⟨rfl, rfl, rfl, rfl, fun _ _ => rfl⟩ exGiOK rfl rfl {} exTree
+    (by simp [exTree, DistinctNames, DistinctNamesL]) ["a"] _ _ [⟨[], none, 0⟩] rfl
+    (by intro i hi; have : i = 0 := by simpa using hi
+        subst this; decide) rfl rfl
+
+/-! ### How an explicitly requested path is read (the interpretation of "reaches it")
+
+`mustRequested` — and, by `C01_calls`, the engine — treats a REQUESTED path as reached by the request itself:
+  * a requested FILE is handed to the extractors that require it, whatever the skip list, regex, glob or any
+    `.gitignore` says about it or about the directories above it (only kind, size limit and `FileRequired` apply;
+    `fs.Stat` follows a requested symlink);
+  * a requested DIRECTORY is walked even when a directory ABOVE it is excluded by a skip rule; the rules apply to
+    the requested directory itself and to everything below it, and the `.gitignore` files of the directories above
+    it are honoured for what lies below.
+This mirrors `walkIndividualPaths`; it is the reading of "not excluded by a configured skip rule … explicitly
+requested path that reaches it" recorded in DESIGN.md. -/
+
+/-- A requested file bypasses every skip rule: two configurations that agree on the extractors, `FileRequired`,
+the size limit and symlink reading owe the same attempts for it — skip list, regex, glob, gitignore handling,
+sub-directory cut-off and requested-path list play no role. -/
+theorem C01_requested_file_bypasses_skip_rules (c c' : Cfg) (f : Faults) (root : Node) (p : Path) (k : Kind) (sz : Nat)
+    (hl : lookup root p = some (.file k sz))
+    (h1 : c'.nExt = c.nExt) (h2 : c'.required = c.required) (h3 : c'.maxFileSize = c.maxFileSize)
+    (h4 : c'.readSymlinks = c.readSymlinks) :
+    mustRequested c' f root p = mustRequested c f root p := by
+  unfold mustRequested
+  rw [hl]
+  simp only [mustOne, reached, fileEligible, sizeOk, List.length_nil, List.range_zero, List.all_nil, Bool.true_and,
+    Bool.false_and, Bool.not_false, Bool.and_true, h1, h2, h3, h4]
+
+/-- … for the engine: the benign scans requesting that file make the same attempts under both configurations. -/
+theorem C01_requested_file_bypasses_skip_rules_run (c c' : Cfg) (hb : Benign c) (hb' : Benign c') (ho : GiOK c) (ho' : GiOK c')
+    (f : Faults) (root : Node) (p : Path) (k : Kind) (sz : Nat) (hl : lookup root p = some (.file k sz))
+    (hp : c.paths = [p]) (hp' : c'.paths = [p])
+    (h1 : c'.nExt = c.nExt) (h2 : c'.required = c.required) (h3 : c'.maxFileSize = c.maxFileSize)
+    (h4 : c'.readSymlinks = c.readSymlinks) :
+    (run c' [(root, f)]).calls = (run c [(root, f)]).calls := by
+  rw [(run_spec c hb _ ho).2, (run_spec c' hb' _ ho').2]
+  simp only [mustExtract, List.flatMap_cons, List.flatMap_nil, List.append_nil, mustRoot, hp, hp',
+    List.isEmpty_cons, Bool.false_eq_true, if_false]
+  rw [C01_requested_file_bypasses_skip_rules c c' f root p k sz hl h1 h2 h3 h4]
+
+/-! decided witnesses on the example tree: `a/b` is ignored by `a/.gitignore` and `skipme` is excluded by the glob in
+a whole-tree scan (see above: only `a/x` is owed), yet requesting them owes their extraction -/
+example : (mustRequested { exCfg with paths := [["a", "b"]] } {} exTree ["a", "b"]).map (fun cl => (cl.ext, cl.path))
+    = [(0, ["a", "b"]), (1, ["a", "b"])] := by decide
+example : (mustRequested { exCfg with paths := [["skipme", "y"]] } {} exTree ["skipme", "y"]).map (fun cl => (cl.ext, cl.path))
+    = [(0, ["skipme", "y"]), (1, ["skipme", "y"])] := by decide
+/-- a requested DIRECTORY below an excluded directory is walked (`skipme` is excluded by the glob, `skipme/sub` is not) … -/
+def exTreeSub : Node := .dir none [("skipme", .dir none [("sub", .dir none [("z", .file .reg 1)]), ("y", .file .reg 1)])]
+example : mustExtract exCfg [(exTreeSub, {})] = [] := by decide
+example : (mustRequested { exCfg with paths := [["skipme", "sub"]] } {} exTreeSub ["skipme", "sub"]).map (fun cl => (cl.ext, cl.path))
+    = [(0, ["skipme", "sub", "z"]), (1, ["skipme", "sub", "z"])] := by decide
+/-- … while a requested directory that is ITSELF excluded is not entered. -/
+example : mustRequested { exCfg with paths := [["skipme"]] } {} exTreeSub ["skipme"] = [] := by decide
 
 end Scalibr.Walk
